@@ -508,7 +508,9 @@ func main() {
 			keys = append(keys, scenKey{"boundary-directed-graceful", f.Seed, dstNew, dstNew, "memory"})
 			for i := 0; i < f.Scale(1, 4); i++ {
 				keys = append(keys, scenKey{"boundary-random-killed", f.Seed*1000 + uint64(i), dstNew, dstNew, "memory"})
-				keys = append(keys, scenKey{"boundary-random-graceful", f.Seed*1000 + uint64(i), dstNew, dstNew, "memory"})
+				if f.Thorough() {
+					keys = append(keys, scenKey{"boundary-random-graceful", f.Seed*1000 + uint64(i), dstNew, dstNew, "memory"})
+				}
 			}
 		}
 		if f.Thorough() {
